@@ -24,4 +24,6 @@ ASSUMPTIONS = common.ASSUMPTIONS_E1 + [
 def gen_case(seed, tier, index=0):
     if index % 8 == 7:
         return wf.gen_case_observer_race(seed, tier, index)
+    if index % 8 == 3:
+        return wf.gen_case_busy_pool(seed, tier, index)
     return wf.gen_case_dag(seed, tier, index, restart_bias=(index % 3 == 2))
